@@ -189,11 +189,19 @@ Fixpoint process_pattern (e : cfg) (gs : list graph) (lo : lopts) (cs : list cla
         else process_pattern e gs lo rest (snd ut))
   end.
 
-(* projectAndGroupBy without GROUP BY: copy binding -> alias for every projection in order, then keep the output
-   bindings; Execute replaces an empty table by table.New(OutputBindings), which rejects duplicates *)
-Definition apply_proj (rows : list row) (p : str * str) : list row :=
-  if is_empty (snd p) then rows
-  else map (fun r => match get r (fst p) with Some v => set r (snd p) v | None => del r (snd p) end) rows.
+(* projectAndGroupBy without GROUP BY: for every row, all projected values are read first, then every alias is written
+   (an alias may carry the name of a binding another projection still reads); then the output bindings are kept.
+   Execute replaces an empty table by table.New(OutputBindings), which rejects duplicates. *)
+Definition write_alias (acc : row) (pv : (str * str) * option cell) : row :=
+  let a := snd (fst pv) in
+  if is_empty a then acc
+  else match snd pv with
+       | Some v => set acc a v
+       | None => del acc a
+       end.
+
+Definition project_row (projs : list (str * str)) (r : row) : row :=
+  fold_left write_alias (map (fun p => (p, get r (fst p))) projs) r.
 
 Fixpoint nodup_str (l : list str) : bool :=
   match l with
@@ -202,7 +210,7 @@ Fixpoint nodup_str (l : list str) : bool :=
   end.
 
 Definition project (outs : list str) (projs : list (str * str)) (t : table) : outcome (list str * list (list (option cell))) :=
-  let rows := fold_left apply_proj projs (trows t) in
+  let rows := map (project_row projs) (trows t) in
   match rows with
   | [] => if nodup_str outs then Ok (outs, []) else Err EOther
   | _ => let bs := add_all [] outs in Ok (bs, map (fun r => map (get r) bs) rows)
